@@ -50,6 +50,7 @@ def explore(res, rng, n):
     core.import_impl()
     from ffpack import fdm, utils
     reqs, meta = [], []
+    keep = []
     for i in range(n):
         try:
             sn, lim, rows = gen_case(rng)
@@ -105,7 +106,17 @@ def explore(res, rng, n):
                 fail(res, 'never negative', case, d)
             if f([(S, c) for S, c in rows if S <= lim] or [(lim, 1.0)]) != 0:
                 fail(res, 'rows at or below the fatigue limit contribute nothing', case, None)
-            a_fit = (fitter.fitter.coeffs[0] if hasattr(fitter.fitter, 'coeffs') else None)
+            # slope of the fitted curve from two public queries (no private attribute is read)
+            s_hi = max(S for S, _ in rows) * 1.2 + 1.0
+            n_a, n_b = fitter.getN(lim + 1.0), fitter.getN(lim + 1.0 + s_hi)
+            a_fit = (-1.0 if (n_a != -1 and n_b != -1 and n_b < n_a) else None)
+            # a fitter built for an earlier data set still answers for ITS data after other fitters have been built
+            if keep:
+                pf_, ps_, pv_ = keep[-1]
+                if float(pf_.getN(ps_)) != pv_:
+                    fail(res, 'a fitter built earlier changed its curve after another fitter was constructed', {'S': ps_}, [float(pf_.getN(ps_)), pv_])
+            keep.append((fitter, lim + 3.0, float(fitter.getN(lim + 3.0))))
+            del keep[:-1]
             if a_fit is not None and a_fit < 0:
                 up = [(S * 1.1 if j == 0 else S, c) for j, (S, c) in enumerate(rows)]
                 if f(up) < d * (1 - 1e-12):
